@@ -115,6 +115,9 @@ func (Fam) Gen(r *rand.Rand, i int) string {
 	if r.Intn(30) == 0 {
 		return genConvertOp(r)
 	}
+	if r.Intn(60) == 0 {
+		return genFeeProductOp(r)
+	}
 	if r.Intn(6) == 0 {
 		k := rawKinds[r.Intn(len(rawKinds))]
 		bits := 255
@@ -652,6 +655,9 @@ func (Fam) Exec(op string) (string, []common.Failure) {
 	}
 	if k == "mon.convert" {
 		return execConvert(op)
+	}
+	if k == "mon.feeproduct" {
+		return execFeeProduct(op)
 	}
 	if strings.HasSuffix(k, ".cmp") {
 		return execCmp(op)
